@@ -40,8 +40,8 @@ for i in ids:
                        "level_note": NOTE, "technique": TECH})
 na = [{"property_id": i, "reason": PENDING.get(i, "check not built yet (work in progress; DESIGN.md s11 order of work)")} for i in ids if i not in CLAIMED]
 m = {"version": 1, "setup_cmd": "bin/setup",
-     "hooks": {"guard": "SPLINETRAJECTORY_VERIF", "enable": "-DSPLINETRAJECTORY_VERIF on the harness compile line (only the C12 schedule replayer uses hooks)",
-               "baseline_off_cmd": "bin/baseline_off", "source_commits": [], "add_only": True},
+     "hooks": {"guard": "SPLINETRAJECTORY_VERIF", "enable": "-DSPLINETRAJECTORY_VERIF plus -include harness/trace_sink.hpp when building the repository's own test programs (lib/vbuild.py: repo_test_with_hooks); the replayers use the public API only",
+               "baseline_off_cmd": "bin/baseline_off", "source_commits": ["98a3c22"], "add_only": True},
      "engines": [{"name": "tlc-conformance", "path": "bin/check", "serves_properties": sorted(CLAIMED),
                   "kind_free_text": "TLA+ design modules model-checked by TLC; behaviours replayed on the real classes (harness/), recordings validated by TLC trace specifications with an exact rational oracle"}],
      "checks": checks,
